@@ -45,3 +45,7 @@ Definition lower (edges : list Q) (i : nat) : Q := nth i (0 :: edges)%Q 0%Q.
 Definition upper (edges : list Q) (i : nat) : Q := nth i edges 0%Q.
 Definition in_class_i (edges : list Q) (i : nat) (d : Q) : bool :=
   Nat.ltb i (length edges) && in_class (lower edges i) (upper edges i) d.
+
+(* DirectionalVariogram._calc_groups: super()._calc_groups(); groups[~mask] = -1 *)
+Definition masked_groups (edges : list Q) (D : list Q) (mask : list bool) : list (option nat) :=
+  map (fun dm : Q * bool => if snd dm then group_of edges (fst dm) else None) (combine D mask).
